@@ -8,5 +8,6 @@ CONSTANTS
   Bug_CloseAllClosesLast = FALSE
   Bug_NoSwallow = FALSE
   Bug_NoResetSourcePosition = FALSE
-INVARIANTS ArithmeticEqualsProvenance TextIsItemsWithoutMarkers RangesInsideText SortedStable RegionNeverFails SwallowFormsAgree Emit
+  PairLast = FALSE
+INVARIANTS ArithmeticEqualsProvenance TextIsItemsWithoutMarkers RangesInsideText SortedStable RegionNeverFails PairingOnlyMattersWhenNested Emit
 CHECK_DEADLOCK FALSE
